@@ -156,6 +156,221 @@ def judge(o, e):
     return "ok"
 
 
+# ---------------------------------------------------------------- tensor diagrams with symbolic boxes and bubbles
+TFN = {"sq": lambda v: v ** 2, "cubeplus": lambda v: v ** 3 + v, "oneminus": lambda v: 1 - v}
+TENTS = c14.TFORMS + [{"c0": 2, "cx": 0, "cy": 0}, {"c0": -3, "cx": 0, "cy": 1}]
+
+
+def random_tree(rnd, depth, wide=False):
+    """expression tree over 2x2 boxes on one wire: then / bubble (single-wire) / at the top, optionally, tensor"""
+    if wide:
+        return {"op": "tensor", "l": random_tree(rnd, depth - 1), "r": random_tree(rnd, depth - 1)}
+    r = rnd.random()
+    if depth <= 0 or r < 0.3:
+        const = rnd.random() < 0.25
+        ents = [rnd.choice([e for e in TENTS if not (e["cx"] or e["cy"])] if const else TENTS) for _ in range(4)]
+        return {"op": "box", "ents": ents}
+    if r < 0.65:
+        return {"op": "then", "l": random_tree(rnd, depth - 1), "r": random_tree(rnd, depth - 1)}
+    inner = random_tree(rnd, depth - 1)
+    fn = rnd.choice(["sq", "oneminus"] if _has_bubble(inner) else ["sq", "cubeplus", "oneminus"])   # keep TLC's integers small
+    return {"op": "bubble", "fn": fn, "l": inner}
+
+
+class TooBig(Exception):
+    pass
+
+
+def tree_fits(tree, pt):
+    """Generator-side guard only (TLC's integers are 32-bit): run the same recursion as Trace_GradT!EvD on exact
+    fractions and refuse trees in which some product's numerator would leave 30 bits."""
+    from fractions import Fraction as Fr
+
+    def chk(z):
+        if abs(z.numerator) >= 2 ** 23 or z.denominator >= 2 ** 23:
+            raise TooBig
+        return z
+
+    def mul(a, b):
+        if abs(a.numerator * b.numerator) >= 2 ** 25 or a.denominator * b.denominator >= 2 ** 25:
+            raise TooBig
+        return chk(a * b)
+
+    def plus(a, b):
+        d = max(a.denominator, b.denominator)
+        if abs(a.numerator) * (d // a.denominator) >= 2 ** 24 or abs(b.numerator) * (d // b.denominator) >= 2 ** 24:
+            raise TooBig
+        return chk(a + b)
+
+    def matmul(A, B):
+        n = len(B)
+        m = len(B[0])
+        out = []
+        for i in range(len(A)):
+            row = []
+            for j in range(m):
+                acc = Fr(0)
+                for k in range(n):
+                    acc = plus(acc, mul(A[i][k], B[k][j]))
+                row.append(acc)
+            out.append(row)
+        return out
+
+    def kron(A, B):
+        return [[mul(a, b) for a in ra for b in rb] for ra in A for rb in B]
+
+    def add(A, B):
+        return [[plus(a, b) for a, b in zip(ra, rb)] for ra, rb in zip(A, B)]
+
+    def ev(n, v):
+        if n["op"] == "box":
+            e = n["ents"]
+            val = [Fr(f["c0"] + f["cx"] * pt[0] + f["cy"] * pt[1], 8) for f in e]
+            der = [Fr(f["cx"] if v == "x" else f["cy"]) for f in e]
+            return [val[:2], val[2:]], [der[:2], der[2:]]
+        if n["op"] in ("then", "tensor"):
+            (a, da), (b, db) = ev(n["l"], v), ev(n["r"], v)
+            op = matmul if n["op"] == "then" else kron
+            return op(a, b), add(op(da, b), op(a, db))
+        a, da = ev(n["l"], v)
+        f = {"sq": lambda z: mul(z, z), "cubeplus": lambda z: plus(mul(z, mul(z, z)), z), "oneminus": lambda z: plus(Fr(1), -z)}[n["fn"]]
+        df = {"sq": lambda z: mul(Fr(2), z), "cubeplus": lambda z: plus(mul(Fr(3), mul(z, z)), Fr(1)), "oneminus": lambda z: Fr(-1)}[n["fn"]]
+        return [[f(z) for z in r] for r in a], [[mul(df(z), dz) for z, dz in zip(r, dr)] for r, dr in zip(a, da)]
+    try:
+        ev(tree, "x")
+        ev(tree, "y")
+        return True
+    except TooBig:
+        return False
+
+
+def _has_bubble(n):
+    return n["op"] == "bubble" or any(_has_bubble(n[k]) for k in ("l", "r") if k in n)
+
+
+def describe_tree(n):
+    if n["op"] == "box":
+        return "[%s]" % " ".join("%d%+dx%+dy" % (e["c0"], e["cx"], e["cy"]) for e in n["ents"])
+    if n["op"] == "bubble":
+        return "%s(%s)" % (n["fn"], describe_tree(n["l"]))
+    return "(%s %s %s)" % (describe_tree(n["l"]), ">>" if n["op"] == "then" else "@", describe_tree(n["r"]))
+
+
+def build_tree(n, counter):
+    from discopy import tensor
+    from discopy.tensor import Dim
+    if n["op"] == "box":
+        counter[0] += 1
+        return tensor.Box("f%d" % counter[0], Dim(2), Dim(2), [c14.expr_of(e) for e in n["ents"]])
+    if n["op"] == "then":
+        return build_tree(n["l"], counter) >> build_tree(n["r"], counter)
+    if n["op"] == "tensor":
+        return build_tree(n["l"], counter) @ build_tree(n["r"], counter)
+    return build_tree(n["l"], counter).bubble(func=TFN[n["fn"]])
+
+
+def observe_tree(args):
+    tree, v, pt = args
+    import numpy as np
+    import sympy
+    x, y = c14.syms()
+    S = {"x": x, "y": y}
+    at = [(x, sympy.Rational(pt[0], 8)), (y, sympy.Rational(pt[1], 8))]
+
+    def entries(T):
+        if isinstance(T, (int, float)) and T == 0:
+            return []                              # the empty sum evaluates to the number 0
+        return [complex(sympy.N(sympy.sympify(e).subs(at), 30)) for e in np.asarray(T.array).flatten()]
+    rec = {"build": "", "fs": [], "terms": -1, "grad": None, "grad_exc": "", "val": None, "val_exc": "", "jac": None, "jac_exc": ""}
+    try:
+        d = build_tree(tree, [0])
+        rec["fs"] = sorted(str(s) for s in d.free_symbols)
+    except Exception as e:
+        rec["build"] = type(e).__name__
+        return rec
+    try:
+        rec["val"] = entries(d.eval())
+    except Exception as e:
+        rec["val_exc"] = type(e).__name__
+    try:
+        g = d.grad(S[v])
+        rec["terms"] = len(g.terms) if hasattr(g, "terms") else -2
+        rec["grad"] = entries(g.eval())
+    except Exception as e:
+        rec["grad_exc"] = type(e).__name__
+    try:
+        rec["jac"] = entries(d.jacobian([x, y]).eval())
+    except Exception as e:
+        rec["jac_exc"] = type(e).__name__
+    return rec
+
+
+def tcmp(exp, got, zero_ok=True):
+    ys = [core.ring_to_complex(p) for p in exp]
+    if got == [] and zero_ok:
+        got = [0.0] * len(ys)
+    if got is None or len(ys) != len(got):
+        return False
+    scale = max([abs(v) for v in ys] + [1.0])
+    return max([abs(a - b) for a, b in zip(got, ys)] + [0.0]) <= 1e-9 * scale
+
+
+def judge_tree(o, e, v):
+    if o["build"]:
+        return "diagram-cannot-be-built"
+    if o["grad_exc"]:
+        return "gradient-raised"
+    if not e["depends"] and o["terms"] != 0:
+        return "gradient-of-independent-diagram-is-not-the-empty-sum"
+    if not tcmp(e["dx"] if v == "x" else e["dy"], o["grad"]):
+        return "gradient-does-not-evaluate-to-the-derivative-of-the-evaluation"
+    if o["jac_exc"]:
+        return "jacobian-raised"
+    rows, cols = e["rows"], e["cols"]
+    want = []
+    for r in range(rows):
+        want += e["dx"][r * cols:(r + 1) * cols] + e["dy"][r * cols:(r + 1) * cols]
+    if not tcmp(want, o["jac"]):
+        return "jacobian-does-not-stack-the-gradients-in-the-order-of-the-variables"
+    return "ok"
+
+
+def tensor_leg(work, rnd, n, rejected, clauses):
+    items = []
+    k = 0
+    while len(items) < n:
+        k += 1
+        tree, pt = random_tree(rnd, 2 if k % 3 else 3, wide=(k % 7 == 3)), rnd.choice(POINTS)
+        if tree_fits(tree, pt):
+            items.append((tree, rnd.choice(["x", "y"]), pt))
+    with mp.get_context("fork").Pool(16) as pool:
+        obs = pool.map(observe_tree, items, chunksize=4)
+    tf = os.path.join(work, "tensor-grad.ndjson")
+    core.write_ndjson(tf, [{"e": t, "v": v, "pt": pt} for t, v, pt in items])
+    exp = core.validate("Trace_GradT", "OutG", tf, work, constants=VC(), timeout=3000)["rows"]
+    ok = drift = 0
+    for (tree, v, pt), o, e in zip(items, obs, exp):
+        clause = judge_tree(o, e, v)
+        if not o["build"] and not o["val_exc"] and not tcmp(e["val"], o["val"], zero_ok=False):
+            drift += 1          # the evaluation itself is C09's / C14's subject: reported, not judged here
+        clauses["tensor:" + clause] += 1
+        ok += clause == "ok"
+        if clause != "ok":
+            rejected.append({"clause": clause, "sig": "tensor-diagram bubbles=%d %s d/d%s at %s exc=%s" % (
+                int(_has_bubble(tree)), describe_tree(tree), v, pt, o["grad_exc"] or o["jac_exc"] or "-"),
+                "obs": {"tensor_tree": tree, "v": v, "pt": pt}})
+    if drift:
+        print("MODEL-DRIFT: C15 tensor leg: %d evaluations of the undifferentiated diagram differ from Trace_GradT's value" % drift)
+    # canary
+    k = next(i for i, (o, e) in enumerate(zip(obs, exp)) if judge_tree(o, e, items[i][1]) == "ok" and o["grad"] and
+             max(abs(z) for z in o["grad"]) > 0.2)
+    bad = dict(obs[k], grad=[z * 2 for z in obs[k]["grad"]])
+    if judge_tree(bad, exp[k], items[k][1]) == "ok":
+        raise core.Machinery("tensor-gradient canary accepted")
+    return {"cases": len(items), "ok": ok, "with_bubbles": sum(1 for t, _, _ in items if _has_bubble(t)),
+            "independent_of_the_symbol": sum(1 for e in exp if not e["depends"]), "value_cross_check_mismatches": drift}
+
+
 def run(tier, seed, t0):
     c = CONST[tier]
     rnd = core.rng(seed, "C15")
@@ -194,6 +409,7 @@ def run(tier, seed, t0):
                     ",".join(kinds), t["v"], t["pt"], qadapt.describe_mixed(t["pc"]),
                     [[l["g"]["pf"]["c0"], l["g"]["pf"]["cx"], l["g"]["pf"]["cy"]] for l in t["pc"]["layers"] if l["g"]["par"]],
                     o["pure_exc"] or o["mixed_exc"] or "-"), "obs": t})
+        tinfo = tensor_leg(work, rnd, 150 if tier == "quick" else 1500, rejected, clauses)
         # canary: a gradient off by a factor must be rejected
         k = next(i for i, (o, e) in enumerate(zip(obs, exp)) if judge(o, e) == "ok" and o["mixed"] and
                  max(abs(v) for v in o["mixed"]) > 0.2)
@@ -211,6 +427,7 @@ def run(tier, seed, t0):
                           "pure_gradients_compared": sum(1 for o, e in zip(obs, exp) if e["pure"] and not o["pure_exc"]),
                           "mixed_gradients_compared": sum(1 for o in obs if not o["mixed_exc"] and not o["build"]),
                           "jacobians_compared": sum(1 for o in obs for n in ("jac1p", "jac1m", "jac2m") if not o[n + "_exc"])},
+               "tensor_diagrams": tinfo,
                "verdicts_by_clause": dict(clauses),
                "canary": {"corrupted": "a mixed gradient multiplied by 2", "rejected_with": "deviation above tolerance"}}
         return core.finish("C15", tier, seed, LEVEL, cov, rejected, t0, ASSUME)
@@ -221,6 +438,15 @@ def replay(path):
         t = json.load(f)["observation"]
     with core.workdir("C15-replay") as work:
         tf = os.path.join(work, "one.ndjson")
+        if "tensor_tree" in t:
+            core.write_ndjson(tf, [{"e": t["tensor_tree"], "v": t["v"], "pt": t["pt"]}])
+            e = core.validate("Trace_GradT", "OutG", tf, work, constants=VC())["rows"][0]
+            clause = judge_tree(observe_tree((t["tensor_tree"], t["v"], t["pt"])), e, t["v"])
+            print("replayed %s: %s" % (describe_tree(t["tensor_tree"]), clause))
+            if clause != "ok":
+                print("VIOLATION property=C15 replay=%s clause=%s" % (path, clause))
+                return 1
+            return 0
         core.write_ndjson(tf, [t])
         e = core.validate("Trace_Grad", "Out", tf, work, constants=VC())["rows"][0]
         clause = judge(observe((t["pc"], t["v"], t["pt"], True)), e)
